@@ -209,6 +209,74 @@ def _h_spellings(n):
     return fn
 
 
+def _h_fetch_header_spellings(n):
+    """FETCH 1 BODY[HEADER.FIELDS (<spelling(v)>)] -- the header field name is an astring: every legal spelling of the
+    same name (non-synchronising / synchronising literal, quoted, atom) names the same header field"""
+    def fn(eng):
+        from pysymex import fresh_bytes, SymBytes, B, AND, Outcome
+        cmds = _g['Commands']()
+        v = fresh_bytes(eng, 'v', n)
+        wit = lambda m: {'v': bytes(v.eval(m)).hex()}  # noqa: E731
+        head = list(b'a FETCH 1 BODY[HEADER.FIELDS (')
+        tail = list(b')]\r\n')
+        results = []
+
+        def run(line_items, follow=None):
+            (cmd, rest), _ = _parse_with_conts(
+                cmds.parse, SymBytes(line_items, 'memoryview'),
+                lambda st: _g['Params'](st), follow)
+            return cmd, rest
+
+        def names(cmd):
+            if type(cmd).__name__ != 'FetchCommand':
+                return None
+            attrs = list(cmd.attributes)
+            if len(attrs) != 1 or attrs[0].section is None or attrs[0].section.headers is None:
+                return None
+            return list(attrs[0].section.headers)
+        cmd, rest = run(head + list(b'{%d+}\r\n' % n) + v.items + tail)
+        got = names(cmd)
+        if got is None:
+            return Outcome(False, site='litplus-rejected', witness=wit)
+        results.append(('litplus', got))
+        cmd, rest = run(head + list(b'{%d}\r\n' % n),
+                        follow=lambda k: SymBytes((v.items + tail)[:k] + (v.items + tail)[k:], 'memoryview'))
+        got = names(cmd)
+        if got is None:
+            return Outcome(False, site='literal-rejected', witness=wit)
+        results.append(('literal', got))
+        site = 'lit'
+        special = False
+        for c in v.items:
+            if c == 13 or c == 10 or c == 0:
+                special = True
+                break
+        if not special:
+            cmd, rest = run(head + _quote(v.items) + tail)
+            got = names(cmd)
+            if got is None:
+                return Outcome(False, site='quoted-rejected', witness=wit)
+            results.append(('quoted', got))
+            site += '+quoted'
+            if n > 0 and _g['AString']._pattern.fullmatch(v.as_kind('memoryview')):
+                cmd, rest = run(head + v.items + tail)
+                got = names(cmd)
+                if got is not None:          # ']' and ')' end an atom here; such values are simply not atoms in this place
+                    results.append(('atom', got))
+                    site += '+atom'
+        want = v.upper()
+        props = []
+        for how, got in results:
+            if len(got) != 1:
+                return Outcome(False, site=site, witness=wit, info='%s spelling names %d fields' % (how, len(got)))
+            if len(got[0]) != n:
+                return Outcome(False, site=site, witness=wit,
+                               info='%s spelling names a field of %d octets instead of %d' % (how, len(got[0]), n))
+            props.append(B(got[0] == want))
+        return Outcome(AND(*props), site=site, witness=wit, info='a spelling names another header field')
+    return fn
+
+
 def conn_spellings(g, v, has_crlf, is_atom, mk, role='user'):
     """LOGIN <user-spelling> <password-spelling> through the real connection loop
     (IMAPConnection.readline / read_continuation / read_command): every pair of
@@ -465,6 +533,9 @@ def harnesses(tier):
     hs.append(Harness('login_spellings_connection_last_arg[1+"{1+}"]', _h_conn_spellings(1, 'pass', b'{1+}'),
                       {'value': '1 symbolic byte + "{1+}"', 'role': 'last argument of the line'},
                       replay='connspell', task_budget=20))
+    for n in range(1, (3 if tier == 'quick' else 4) + 1):
+        hs.append(Harness('fetch_header_field_spellings[len=%d]' % n, _h_fetch_header_spellings(n), {'name_len': n},
+                          replay='hdrspell', task_budget=80))
     hs.append(Harness('command_case', _h_cmdcase(), {'word': 'SELECT, 2^6 case patterns as 6 symbolic bits'},
                       replay='cmdcase'))
     for word in sorted(_g['Commands']().commands.keys()):
@@ -553,6 +624,38 @@ def replay(harness, w):
         for c in cands:
             if getattr(c, 'userid', None) != v or getattr(c, 'password', None) != b'p':
                 bad.append('%s -> %r' % (type(c).__name__, getattr(c, 'userid', None)))
+    elif harness == 'hdrspell':
+        v = bytes.fromhex(w['v'])
+        head, tail = b'a FETCH 1 BODY[HEADER.FIELDS (', b')]\r\n'
+
+        def run(line, follow=None):
+            conts = []
+            while True:
+                try:
+                    return Commands().parse(memoryview(line), Params(ParsingState(continuations=conts)))[0]
+                except ParsingInterrupt:
+                    conts.append(memoryview(follow))
+
+        def names(cmd):
+            if type(cmd).__name__ != 'FetchCommand':
+                return None
+            attrs = list(cmd.attributes)
+            if len(attrs) != 1 or attrs[0].section is None or attrs[0].section.headers is None:
+                return None
+            return sorted(attrs[0].section.headers)
+        cands = [('litplus', names(run(head + b'{%d+}\r\n' % len(v) + v + tail))),
+                 ('literal', names(run(head + b'{%d}\r\n' % len(v), v + tail)))]
+        if b'\r' not in v and b'\n' not in v and b'\0' not in v:
+            q = b'"' + v.replace(b'\\', b'\\\\').replace(b'"', b'\\"') + b'"'
+            cands.append(('quoted', names(run(head + q + tail))))
+            import pymap.parsing.specials as spec
+            if v and spec.AString._pattern.fullmatch(v):
+                got = names(run(head + v + tail))
+                if got is not None:
+                    cands.append(('atom', got))
+        for how, got in cands:
+            if got != [v.upper()]:
+                bad.append('HEADER.FIELDS name %r spelled as %s names %r' % (v, how, got))
     elif harness == 'connspell':
         from checks import _sim
         import pymap.parsing.specials as spec
